@@ -433,7 +433,40 @@ func (g *Gen) macro() {
 	if g.cfg.POps > 0 {
 		nk = 9 // operation-subset re-adds only where the check quantifies over requested operation sets
 	}
-	switch rapid.IntRange(0, nk).Draw(t, "macro-kind") {
+	kind := rapid.IntRange(0, nk+1).Draw(t, "macro-kind")
+	if kind == nk+1 {
+		kind = 10
+	}
+	switch kind {
+	case 10: // two incarnations of a watched entry of a watched directory: the old inode
+		// lives on (hard link or open descriptor) while the name is re-created and
+		// changed, and goes away afterwards; the path is not added again
+		add(filepath.Dir(f))
+		add(f)
+		slot := rapid.IntRange(0, 2).Draw(t, "macro-slot3")
+		viaLink := g.pct("macro-vialink", 50)
+		if viaLink {
+			em(Step{K: KLink, P: P(f), Q: keep})
+		} else {
+			if g.held[slot] {
+				em(Step{K: KRelease, N: slot})
+			}
+			em(Step{K: KHold, P: P(f), N: slot})
+		}
+		em(Step{K: KUnlink, P: P(f)}, Step{K: KCreate, P: P(f)}, Step{K: KWrite, P: P(f), N: 1})
+		if g.pct("macro-midsync", 50) {
+			g.sync()
+		}
+		if viaLink {
+			em(Step{K: KWrite, P: keep, N: 1}, Step{K: KUnlink, P: keep})
+		} else {
+			em(Step{K: KRelease, N: slot})
+			delete(g.held, slot)
+		}
+		em(Step{K: KChmod, P: P(f), N: 0o600})
+		g.sync()
+		g.steps = append(g.steps, Step{K: KList})
+		return
 	case 9: // the same path added several times with different operation sets, then moved / removed
 		for i, n := 0, rapid.IntRange(2, 3).Draw(t, "macro-nadds"); i < n; i++ {
 			em(Step{K: KAdd, P: P(g.spell(f, false)), N: rapid.SampledFrom([]int{0, 2, 16, 1, 4, 8, 31, 18}).Draw(t, "macro-ops")})
